@@ -3,7 +3,7 @@
 
    meta     = (file_name title description data_type modification_type relates_to related_files
                publication_date modification_date num_alternatives num_voters ((alt name) ...))
-   instance = (meta num_edges ((node (neighbour ...)) ...) (((n1 n2) token) ...))
+   instance = (meta num_edges ((node (neighbour ...)) ...) (((n1 n2) token) ...))   node ids: integers of either sign
    c09.write     instance                                  -> result text   (Err 5 = KeyError in write)
    c09.parse     (autocorrect header_only data_type file_name splitter text) -> result instance
                  splitter: 0 = file.readlines() (parse_file), 1 = str.splitlines() (parse_str)
@@ -30,12 +30,12 @@ Definition e_meta (m : meta) : val :=
 
 Definition d_inst (v : val) : twinst :=
   mkW (d_meta (dnth 0 v)) (dN (dnth 1 v))
-      (dlist (dpair dN (dlist dN)) (dnth 2 v))
-      (dlist (dpair (dpair dN dN) d_text) (dnth 3 v)).
+      (dlist (dpair dZ (dlist dZ)) (dnth 2 v))
+      (dlist (dpair (dpair dZ dZ) d_text) (dnth 3 v)).
 Definition e_inst (i : twinst) : val :=
   VL [e_meta (w_meta i); eN (w_num_edges i);
-      elist (epair eN (elist eN)) (w_nodes i);
-      elist (epair (epair eN eN) e_text) (w_weights i)].
+      elist (epair eZ (elist eZ)) (w_nodes i);
+      elist (epair (epair eZ eZ) e_text) (w_weights i)].
 
 Definition write_r (i : twinst) : result text :=
   if wmd_write_ok i then Ok (wmd_write_tok i) else Err OtherErr.
@@ -59,12 +59,12 @@ Definition op_roundtrip (v : val) : val :=
 
 Definition build_step (g : nmap * wtab text) (v : val) : nmap * wtab text :=
   match dnat (dnth 0 v) with
-  | O => (add_node (dN (dnth 1 v)) (fst g), snd g)
-  | _ => add_edge (dN (dnth 1 v)) (dN (dnth 2 v)) (d_text (dnth 3 v)) g
+  | O => (add_node (dZ (dnth 1 v)) (fst g), snd g)
+  | _ => add_edge (dZ (dnth 1 v)) (dZ (dnth 2 v)) (d_text (dnth 3 v)) g
   end.
 Definition op_build (v : val) : val :=
   let g := fold_left build_step (dlist (fun x => x) v) ([], []) in
-  VL [elist (epair eN (elist eN)) (fst g); elist (epair (epair eN eN) e_text) (snd g)].
+  VL [elist (epair eZ (elist eZ)) (fst g); elist (epair (epair eZ eZ) e_text) (snd g)].
 
 Definition ops : optable :=
   [ ("c09.write", op_write); ("c09.parse", op_parse); ("c09.roundtrip", op_roundtrip); ("c09.build", op_build) ].
